@@ -37,6 +37,10 @@ type TapEvent struct {
 // Tap records every envelope accepted by any pipe of the execution.
 type Tap struct {
 	Events []TapEvent
+	// LostOn: ids of which an envelope was dropped in transit by a scenario's fault plan, and the
+	// wire it was dropped on. Such an id is judged on that wire only (where the emission is
+	// recorded): further downstream the history has a hole the scenario itself made.
+	LostOn map[uint64]string
 }
 
 func (t *Tap) Dir(wire, dir string) []*Rpc {
@@ -221,6 +225,12 @@ func (e *End) Write(ctx context.Context, rpc *Rpc) error {
 	if e.DropWriteAt >= 0 && k == e.DropWriteAt {
 		e.NWritten++
 		e.p.tap(e.dir, rpc) // the writer did emit it (the wire automaton judges emissions); it is lost in transit
+		if e.p.Tap != nil {
+			if e.p.Tap.LostOn == nil {
+				e.p.Tap.LostOn = map[uint64]string{}
+			}
+			e.p.Tap.LostOn[rpc.GetId()] = e.p.Opts.Name
+		}
 		return nil
 	}
 	msg := rpc
